@@ -61,6 +61,12 @@ def main() -> int:
             opened = engine.open_assumptions(comp)
             if opened:
                 broken.append({"reason": "proof", "what": "theorem depends on axioms", "detail": opened})
+        if comp["ok"] and args.tier == "thorough" and not args.replay:
+            chk = engine.coqchk_property(prop)
+            comp["coqchk"] = chk
+            if not chk["ok"]:
+                broken.append({"reason": "proof", "what": "coqchk rejects the compiled property file or reports axioms",
+                               "detail": json.dumps(chk)[:1500]})
         bad = engine.audit_sources()
         if bad:
             broken.append({"reason": "proof", "what": "forbidden vernacular in the development", "detail": bad})
@@ -116,7 +122,8 @@ def main() -> int:
     run.pop("corr_broken", None)
     run.pop("known", None)
     engine.write_evidence(prop, args.tier, seed, t0, comp, run, nviol,
-                          extra={"broken_obligations": [b["what"] for b in broken]})
+                          extra={"broken_obligations": [b["what"] for b in broken],
+                                 **({"coqchk": comp["coqchk"]} if comp and comp.get("coqchk") else {})})
     return exit_code
 
 
